@@ -2,42 +2,87 @@
 
 package netflow5
 
+import "bytes"
+
+// C08 — NetFlow v5 flows are decoded field-for-field.
+// Reference: the 24-octet header table and the 48-octet record table (DESIGN.md A.1),
+// written with shifts on the raw octets (no encoding/binary, no reader).
+
 func be16(b []byte, o int) uint16 { return uint16(verifAt(b, o))<<8 | uint16(verifAt(b, o+1)) }
 func be32(b []byte, o int) uint32 {
 	return uint32(verifAt(b, o))<<24 | uint32(verifAt(b, o+1))<<16 | uint32(verifAt(b, o+2))<<8 | uint32(verifAt(b, o+3))
 }
 
-func VerifV5Decode() {
-	n := verifNondetInt()
-	verifAssume(verifAll(n >= 0, n <= 1600))
-	buf := verifNondetBytes(n)
-	ip := verifNondetBytes(4)
-	d := NewDecoder(ip, buf)
-	msg, err := d.Decode()
+func verifV5Input() (buf []byte, n int, ip []byte) {
+	maxLen := verifParam("maxlen", 1600)
+	n = verifNondetInt()
+	verifAssume(verifAll(n >= 0, n <= maxLen))
+	buf = verifNondetBytes(n)
+	ipl := 4 + 12*verifCase(2) // 4- or 16-octet exporter address
+	ip = verifNondetBytes(ipl)
+	return
+}
 
+// split 0: every packet that is NOT well-formed yields no flows.
+// split k (1..30): every well-formed packet announcing k flows yields exactly k flows,
+// field for field, with any trailing octets ignored.
+func VerifV5Decode() {
+	k := verifSplit(31)
+	buf, n, ip := verifV5Input()
 	cnt16 := be16(buf, 2)
 	wellFormed := verifAll(n >= 24, be16(buf, 0) == 5, cnt16 >= 1, cnt16 <= 30, n >= 24+48*int(cnt16))
-	if !wellFormed {
+	if k == 0 {
+		verifAssume(!wellFormed)
+	} else {
+		verifAssume(verifAll(wellFormed, int(cnt16) == k))
+	}
+	d := NewDecoder(ip, buf)
+	msg, err := d.Decode()
+	if k == 0 {
 		if msg != nil {
 			verifAssert(len(msg.Flows) == 0, "ill-formed packet yields no flows")
 		}
-		verifReach("illformed")
+		verifReach("end")
 		return
 	}
 	verifAssert(err == nil, "well-formed packet decodes without error")
 	verifAssert(msg != nil, "well-formed packet yields a message")
-	verifAssert(len(msg.Flows) == int(cnt16), "exactly count flows")
+	verifAssert(len(msg.Flows) == k, "exactly count flows")
 	h := msg.Header
-	verifAssert(verifAll(h.Version == 5, h.Count == cnt16, h.SysUpTimeMSecs == be32(buf, 4), h.UNIXSecs == be32(buf, 8),
-		h.UNIXNSecs == be32(buf, 12), h.SeqNum == be32(buf, 16), h.EngType == verifAt(buf, 20), h.EngID == verifAt(buf, 21), h.SmpInt == be16(buf, 22)), "header fields")
+	verifAssert(h.Version == 5, "header Version")
+	verifAssert(h.Count == cnt16, "header Count")
+	verifAssert(h.SysUpTimeMSecs == be32(buf, 4), "header SysUpTimeMSecs")
+	verifAssert(h.UNIXSecs == be32(buf, 8), "header UNIXSecs")
+	verifAssert(h.UNIXNSecs == be32(buf, 12), "header UNIXNSecs")
+	verifAssert(h.SeqNum == be32(buf, 16), "header SeqNum")
+	verifAssert(h.EngType == verifAt(buf, 20), "header EngType")
+	verifAssert(h.EngID == verifAt(buf, 21), "header EngID")
+	verifAssert(h.SmpInt == be16(buf, 22), "header SmpInt")
 	for i := 0; i < len(msg.Flows); i++ {
 		f := msg.Flows[i]
 		o := 24 + 48*i
-		verifAssert(verifAll(f.SrcAddr == be32(buf, o), f.DstAddr == be32(buf, o+4), f.NextHop == be32(buf, o+8),
-			f.Input == be16(buf, o+12), f.Output == be16(buf, o+14), f.PktCount == be32(buf, o+16), f.L3Octets == be32(buf, o+20),
-			f.StartTime == be32(buf, o+24), f.EndTime == be32(buf, o+28), f.SrcPort == be16(buf, o+32), f.DstPort == be16(buf, o+34),
-			f.Padding1 == verifAt(buf, o+36), f.TCPFlags == verifAt(buf, o+37), f.ProtType == verifAt(buf, o+38), f.Tos == verifAt(buf, o+39),
-			f.SrcAsNum == be16(buf, o+40), f.DstAsNum == be16(buf, o+42), f.SrcMask == verifAt(buf, o+44), f.DstMask == verifAt(buf, o+45), f.Padding2 == be16(buf, o+46)), "flow record fields")
+		verifAssert(verifAll(f.SrcAddr == be32(buf, o), f.DstAddr == be32(buf, o+4), f.NextHop == be32(buf, o+8)), "flow addresses (SrcAddr, DstAddr, NextHop)")
+		verifAssert(verifAll(f.Input == be16(buf, o+12), f.Output == be16(buf, o+14)), "flow Input/Output")
+		verifAssert(verifAll(f.PktCount == be32(buf, o+16), f.L3Octets == be32(buf, o+20), f.StartTime == be32(buf, o+24), f.EndTime == be32(buf, o+28)), "flow PktCount/L3Octets/StartTime/EndTime")
+		verifAssert(verifAll(f.SrcPort == be16(buf, o+32), f.DstPort == be16(buf, o+34)), "flow ports")
+		verifAssert(verifAll(f.Padding1 == verifAt(buf, o+36), f.TCPFlags == verifAt(buf, o+37), f.ProtType == verifAt(buf, o+38), f.Tos == verifAt(buf, o+39)), "flow Padding1/TCPFlags/ProtType/Tos")
+		verifAssert(verifAll(f.SrcAsNum == be16(buf, o+40), f.DstAsNum == be16(buf, o+42)), "flow AS numbers")
+		verifAssert(verifAll(f.SrcMask == verifAt(buf, o+44), f.DstMask == verifAt(buf, o+45), f.Padding2 == be16(buf, o+46)), "flow masks/Padding2")
 	}
-	verifReach("wellformed")
+	verifReach("end")
+}
+
+// C01/C02 for NetFlow v5: Decode followed by JSONMarshal on any datagram of any length
+// up to maxlen: no panic site reachable, at most 30 flows, never more flows than octets/48.
+func VerifV5Any() {
+	buf, n, ip := verifV5Input()
+	d := NewDecoder(ip, buf)
+	verifAllocBound(4*n + 2048)
+	msg, _ := d.Decode()
+	if msg != nil {
+		verifAssert(len(msg.Flows) <= 30, "at most 30 flows")
+		verifAssert(len(msg.Flows)*48 <= n, "no more flows than the datagram has 48-octet records")
+		msg.JSONMarshal(new(bytes.Buffer))
+	}
+	verifReach("end")
 }
